@@ -307,7 +307,7 @@ def check_len_formula(case):
 
 
 def len_bound(ctx):
-    return dict(N2=5, N3=4, nrand=0) if ctx.quick else dict(N2=7, N3=6, nrand=5000)
+    return dict(N2=5, N3=4, nrand=0) if ctx.quick else dict(N2=6, N3=5, nrand=5000)
 
 
 def cases_len_formula(ctx):
@@ -1093,7 +1093,7 @@ def _structure_configs(bsmax, nbmax):
 
 
 def loader_bound(ctx):
-    return dict(small=3, bsmax=3, nbmax=3, profiles=1, nrand=0) if ctx.quick else dict(small=4, bsmax=4, nbmax=4, profiles=4, nrand=3000)
+    return dict(small=3, bsmax=3, nbmax=3, profiles=1, nrand=0) if ctx.quick else dict(small=4, bsmax=3, nbmax=4, profiles=2, nrand=3000)
 
 
 def cases_loader_spect(ctx):
